@@ -12,7 +12,11 @@ S=$(mktemp -d -t vsim-XXXXXX); trap 'rm -rf "$S"' EXIT
 mkdir -p "$S/h"
 for i in $(seq 1 $N); do
   case $((i % 3)) in 0) g=1;; 1) g=4;; 2) g=16;; esac
-  ( GOMAXPROCS=$g VERIF_SEED=${VERIF_SEED:-0} "$S/bin/verif" hashes "$ID" ${TIER:-quick} 0 $R > "$S/h/$i.txt" ) &
+  # a quarter of the processes execute the runs in descending order, a quarter execute every
+  # run twice (generated, then replayed from its own record): outcomes must not depend on
+  # what the process ran before, nor on whether the tape is generated or fed back
+  case $((i % 4)) in 1) o=rev;; 2) o=replay;; *) o=;; esac
+  ( GOMAXPROCS=$g VERIF_HASH_ORDER=$o VERIF_SEED=${VERIF_SEED:-0} "$S/bin/verif" hashes "$ID" ${TIER:-quick} 0 $R > "$S/h/$i.txt" ) &
   if [ $((i % 12)) -eq 0 ]; then wait; fi
 done
 wait
